@@ -20,4 +20,13 @@ inductive Tok where
   | many
 deriving Repr, DecidableEq
 
+/-- the shape of the value part `( … )` of an option regex `^\s*kw[\s=]+( … )$` of `SSHConfig._parse`:
+    `.*` | `[class]*` | `[class]+` | `a|b|…` (classes as the list of ASCII characters they accept) -/
+inductive VKind where
+  | rest
+  | star (cls : List Char)
+  | plus (cls : List Char)
+  | alts (l : List Str)
+deriving Repr, DecidableEq
+
 end Scrapli.SSHConfig
